@@ -10,6 +10,10 @@ CLAIMED = {
          "Unbounded theorems (Props/C24.v, 13 statements, all `Closed under the global context`): after any history of add/discard/update the generated code's iteration is duplicate-free, has exactly the members of a plain set, and keeps first-insertion order; constructor, copy, union, ordered_union/intersect/diff are characterised by first-occurrence lists. The model is regenerated from the source on every run, so a source change re-checks the proofs; a differential run of the same histories on the real class and on the Gallina (vm_compute) and a plain-set oracle look for the failing input.",
          "Trusted: Coq kernel, vm_compute, tools/py2v.py, OrderedDict modelled as insertion-ordered association list; collections.abc mix-in operators are stdlib (oracle only).",
          "DESIGN.md section 5 C24"),
+ "C23": ("Coq proof (invariant by induction over the edge list) about a hand-written executable Gallina model of connected_components.py; model tied to the code by differential correspondence evaluated inside Coq",
+         "Unbounded theorems (Props/C23.v): for every edge list over any decidable totally ordered vertex type the model returns one label per edge, the label is connected to the edge's endpoints and is <= every vertex of that component, and two edges share a label iff they are in one component. The Python uses aliased mutable Component objects, so the model is hand-written (store of cells) and every run compares it with the real function on thousands of random edge lists (thorough: plus all edge lists with <=4 edges over 4 vertices); a BFS oracle checks the real function directly.",
+         "Trusted: Coq kernel, vm_compute, the hand model's fidelity (sampled by correspondence on every run), order-isomorphic integer encoding of vertices in the harness; the pandas_base impl_map use of the function is oracle-only.",
+         "DESIGN.md section 5 C23"),
 }
 NOT_YET = "check not built yet (work in progress; see DESIGN.md section 8 build order)"
 
